@@ -178,6 +178,10 @@ func collectImportsFromType(t types.Type, pkg string, imports map[string]*Import
 			}
 		}
 	case *types.Alias:
+		// the type arguments of an instance of a generic alias are written out too
+		for typeArg := range typ.TypeArgs().Types() {
+			collectImportsFromType(typeArg, pkg, imports, referencedImports, varPool)
+		}
 		if objPkg := typ.Obj().Pkg(); objPkg != nil && objPkg.Path() != pkg {
 			pkgPath := objPkg.Path()
 			if imp, exists := imports[pkgPath]; exists {
